@@ -24,11 +24,14 @@ var poolTexts = []string{
 	`{}`, `{"a":1}`, `{"a":2}`, `{"b":1}`, `{"a":1,"b":2}`, `{"a":1,"b":3}`, `{"a":[1]}`, `{"a":null}`, "{\"é\":1}", "{\"é\":1}", `{"a":"1"}`, `{"a":{}}`, `{"a":1.5}`,
 }
 
-type item struct {
-	x     any
-	desc  string
-	canon string
+// Item is one represented value.
+type Item struct {
+	X     any
+	Desc  string
+	Canon string
 }
+
+type item = Item
 
 // Items builds the represented-value set R (shared with C12's hash law).
 func Items(thorough bool) ([]item, error) {
@@ -52,7 +55,7 @@ func Items(thorough bool) ([]item, error) {
 		if c2, ok2 := ref.CanonViaMarshal(x); ok2 && c2 != c && !hasInexactFloat32(x) {
 			return fmt.Errorf("R2 constructions disagree on %s: reflect %s, marshal %s", desc, c, c2)
 		}
-		items = append(items, item{x, desc, c})
+		items = append(items, item{X: x, Desc: desc, Canon: c})
 		return nil
 	}
 	for _, t := range poolTexts {
@@ -115,7 +118,7 @@ func Run(r *ev.Run) {
 	r.Set("pool_values", len(poolTexts))
 	classes := map[string]bool{}
 	for _, it := range items {
-		classes[it.canon] = true
+		classes[it.Canon] = true
 	}
 	r.Set("distinct_json_values", len(classes))
 
@@ -124,22 +127,22 @@ func Run(r *ev.Run) {
 		nt := 0
 		for k := 0; k < n; k++ {
 			y := items[k]
-			key := "Equal(" + x.desc + ", " + y.desc + ")"
+			key := "Equal(" + x.Desc + ", " + y.Desc + ")"
 			if r.OnlyKey != "" && r.OnlyKey != key {
 				continue
 			}
-			want := x.canon == y.canon
+			want := x.Canon == y.Canon
 			var got bool
 			j.Begin(key)
-			p := par.Call(func() { got = jsonschema.Equal(x.x, y.x) })
+			p := par.Call(func() { got = jsonschema.Equal(x.X, y.X) })
 			j.End()
-			if x.desc != y.desc {
+			if x.Desc != y.Desc {
 				nt++
 			}
 			if p != "" {
 				r.Fail(key, map[string]any{"class": "panic", "want": want, "panic": p})
 			} else if got != want {
-				r.Fail(key, map[string]any{"class": "wrong", "want": want, "got": got, "canon_x": x.canon, "canon_y": y.canon})
+				r.Fail(key, map[string]any{"class": "wrong", "want": want, "got": got, "canon_x": x.Canon, "canon_y": y.Canon})
 			}
 			if (i*n+k)%200003 == 0 {
 				r.Sample(map[string]any{"call": key, "want": want, "got": got})
@@ -153,8 +156,8 @@ func Run(r *ev.Run) {
 	var sub []item
 	perClass := map[string]int{}
 	for _, it := range items {
-		if perClass[it.canon] < 2 {
-			perClass[it.canon]++
+		if perClass[it.Canon] < 2 {
+			perClass[it.Canon]++
 			sub = append(sub, it)
 		}
 	}
@@ -168,23 +171,23 @@ func Run(r *ev.Run) {
 		cnt := 0
 		for k := 0; k < m; k++ {
 			var exy, eyx bool
-			if p := par.Call(func() { exy = jsonschema.Equal(sub[i].x, sub[k].x); eyx = jsonschema.Equal(sub[k].x, sub[i].x) }); p != "" {
+			if p := par.Call(func() { exy = jsonschema.Equal(sub[i].X, sub[k].X); eyx = jsonschema.Equal(sub[k].X, sub[i].X) }); p != "" {
 				continue // reported by the pair pass
 			}
 			if exy != eyx {
-				r.Fail("symmetry("+sub[i].desc+", "+sub[k].desc+")", map[string]any{"class": "asymmetric", "xy": exy, "yx": eyx})
+				r.Fail("symmetry("+sub[i].Desc+", "+sub[k].Desc+")", map[string]any{"class": "asymmetric", "xy": exy, "yx": eyx})
 			}
 			if !exy {
 				continue
 			}
 			for l := 0; l < m; l++ {
 				var eyz, exz bool
-				if p := par.Call(func() { eyz = jsonschema.Equal(sub[k].x, sub[l].x); exz = jsonschema.Equal(sub[i].x, sub[l].x) }); p != "" {
+				if p := par.Call(func() { eyz = jsonschema.Equal(sub[k].X, sub[l].X); exz = jsonschema.Equal(sub[i].X, sub[l].X) }); p != "" {
 					continue
 				}
 				cnt++
 				if eyz && !exz {
-					r.Fail("transitivity("+sub[i].desc+", "+sub[k].desc+", "+sub[l].desc+")", map[string]any{"class": "intransitive"})
+					r.Fail("transitivity("+sub[i].Desc+", "+sub[k].Desc+", "+sub[l].Desc+")", map[string]any{"class": "intransitive"})
 				}
 			}
 		}
